@@ -77,7 +77,7 @@ pub fn run_c15(cfg: &Cfg) -> i32 {
         eprintln!("agent binary not built");
         return 2;
     }
-    let n = cfg.count(14, 160);
+    let n = cfg.count(20, 240);
     let rt = rt();
     let kinds: [(&str, &str); 5] = [
         ("unknown-as-set", "AS-DOES-NOT-EXIST"),
@@ -93,8 +93,10 @@ pub fn run_c15(cfg: &Cfg) -> i32 {
         let mut database = crate::c04::simple_db(k_good);
         database.as_sets.insert("AS-FAILING".into(), vec![irrfake::db::AsSetMember::As(65000)]);
         // which unevaluable kinds: every kind alone first, then combinations
-        let bads: Vec<Bad> = if (i as usize) < kinds.len() {
-            vec![Bad { name: format!("zz-bad-{}", kinds[i as usize].0), expr: kinds[i as usize].1.into(), kind: kinds[i as usize].0 }]
+        // ... each kind once with the unevaluable policy already installed, once not installed yet
+        let bads: Vec<Bad> = if (idx as usize) < 2 * kinds.len() {
+            let kk = kinds[idx as usize % kinds.len()];
+            vec![Bad { name: format!("zz-bad-{}", kk.0), expr: kk.1.into(), kind: kk.0 }]
         } else {
             let m = r.range(1, 3);
             (0..m)
@@ -124,9 +126,17 @@ pub fn run_c15(cfg: &Cfg) -> i32 {
                 continue;
             }
         };
-        // the unevaluable policies are already installed (in the agent's own shape): they must stay
+        // unevaluable policies that are already installed (in the agent's own shape) must stay;
+        // others are new (a freshly annotated statement with a typo, an empty database after a
+        // reboot) and must simply not appear
         let mut initial = Config::default();
-        for b in &bads {
+        for (j, b) in bads.iter().enumerate() {
+            let installed = if (idx as usize) < 2 * kinds.len() { (idx as usize) < kinds.len() } else { r.chance(1, 2) };
+            rep.count(if installed { "unevaluable_policies_already_installed" } else { "unevaluable_policies_not_installed" });
+            let _ = j;
+            if !installed {
+                continue;
+            }
             let name = format!("{prefix}{}", b.name);
             let payload = format!(
                 "<configuration><policy-options><policy-statement><name>{name}</name><term><name>inet</name><from><family>inet</family><route-filter><address>198.51.100.0/24</address><prefix-length-range>/24-/24</prefix-length-range></route-filter></from><then><accept/></then></term><then><reject/></then></policy-statement></policy-options></configuration>"
